@@ -2,8 +2,9 @@
 clauses (used by harness/props/c27.py).  Pure functions of a `random.Random`."""
 
 
-def gen_library(rng, max_depth=2):
-    """Returns the list of top-level class nodes.  A node is a dict
+def gen_library(rng, max_depth=2, const_min_depth=0):
+    """Returns the list of top-level class nodes (packages at depth < const_min_depth get no
+    constants, so that files can be cut out below them without meeting payload).  A node is a dict
     {"kind": "package"|"model", "name", "path": [..], "consts": [[name, value]], "imports": [..], "children": [..], "body": str}."""
     counter = {"P": 0, "M": 0, "k": 0}
     packages, models = [], []
@@ -16,8 +17,9 @@ def gen_library(rng, max_depth=2):
         name = fresh("P")
         node = {"kind": "package", "name": name, "path": path + [name], "consts": [], "children": [], "body": ""}
         packages.append(node)
-        for _ in range(rng.choice([0, 1, 1, 2])):
-            node["consts"].append([fresh("k"), rng.randint(2, 9)])
+        if depth >= const_min_depth:
+            for _ in range(rng.choice([0, 1, 1, 2])):
+                node["consts"].append([fresh("k"), rng.randint(2, 9)])
         nkids = rng.choice([1, 2, 2, 3])
         for _ in range(nkids):
             if depth < max_depth and rng.random() < 0.4:
@@ -31,7 +33,7 @@ def gen_library(rng, max_depth=2):
 
     tops = [mk_package([], 0)]
     if rng.random() < 0.35:
-        tops.append(mk_package([], 1))
+        tops.append(mk_package([], 0 if const_min_depth else 1))
     # shadowing: sometimes an inner package re-declares a constant name of an enclosing one
     for p in packages:
         if len(p["path"]) >= 2 and rng.random() < 0.25:
